@@ -48,6 +48,10 @@ impl<T> JobQueue<T> {
     }
 
     pub fn push(&self, value: T) {
+        #[cfg(feature = "verif")]
+        crate::verif::sched::block_until(crate::verif::sched::site::QUEUE_PUSH, || {
+            !self.queue.is_locked()
+        });
         self.queue.lock().push_back(value);
         self.condvar.notify_one();
     }
@@ -73,6 +77,10 @@ impl<T> JobQueue<T> {
 
     /// Blocking pop that can be interrupted by a running flag
     pub fn pop_interruptible(&self, timeout: Duration, running: &AtomicBool) -> Option<T> {
+        #[cfg(feature = "verif")]
+        crate::verif::sched::block_until(crate::verif::sched::site::QUEUE_POP, || {
+            !self.queue.is_locked()
+        });
         let mut guard = self.queue.lock();
         loop {
             if let Some(value) = guard.pop_front() {
@@ -81,6 +89,24 @@ impl<T> JobQueue<T> {
 
             if !running.load(Ordering::Relaxed) {
                 return None;
+            }
+
+            // Under a verification scheduler the idle poll becomes a scheduler wait.
+            #[cfg(feature = "verif")]
+            if crate::verif::sched::is_controlled() {
+                parking_lot::MutexGuard::unlocked(&mut guard, || {
+                    crate::verif::sched::block_until(crate::verif::sched::site::QUEUE_WAIT, || {
+                        !running.load(Ordering::Relaxed)
+                            || self
+                                .queue
+                                .try_lock()
+                                .map(|q| !q.is_empty())
+                                .unwrap_or(false)
+                    })
+                });
+                if crate::verif::sched::is_controlled() {
+                    continue;
+                }
             }
 
             let result = self.condvar.wait_for(&mut guard, timeout);
@@ -121,7 +147,11 @@ struct Worker {
 
 impl Worker {
     fn new(job_queue: Arc<JobQueue<Job>>, running: Arc<AtomicBool>) -> Worker {
+        #[cfg(feature = "verif")]
+        let verif_vid = crate::verif::sched::alloc_thread();
         let thread = thread::spawn(move || {
+            #[cfg(feature = "verif")]
+            let _verif_guard = crate::verif::sched::enter(verif_vid);
             while let Some(job) = job_queue.pop_interruptible(Duration::from_millis(100), &running)
             {
                 match job {
